@@ -1207,7 +1207,15 @@ impl Writer {
         no_longer_relevant.extend(pending_gaps);
       } else {
         // Reader not pending gap on unsent_sn. Get the cache change from topic cache
-        if let Some(cc) = self.history_buffer.get_by_sn(unsent_sn) {
+        // A sample that was written to some other reader only is not available to
+        // this reader. We may get here without a pending gap, if this reader was
+        // matched after the sample was written.
+        let cc_for_this_reader = self.history_buffer.get_by_sn(unsent_sn).filter(|cc| {
+          cc.write_options
+            .to_single_reader()
+            .map_or(true, |single_reader| single_reader == reader_guid)
+        });
+        if let Some(cc) = cc_for_this_reader {
           // // DEBUG
           // if self.my_guid.entity_id == EntityId::SEDP_BUILTIN_PUBLICATIONS_WRITER
           //   && reader_proxy.remote_reader_guid.prefix != self.my_guid.prefix
